@@ -282,6 +282,11 @@ func (in *Interp) eq(x, y value) *smt.Term {
 		return c.And(cs...)
 	case array:
 		ys := y.(array)
+		if xb, ok := termBytes(x); ok && len(x) == len(ys) {
+			if yb, ok := termBytes(ys); ok {
+				return in.eqByteTerms(xb, yb)
+			}
+		}
 		var cs []*smt.Term
 		for i := range x {
 			cs = append(cs, in.eq(x[i], ys[i]))
@@ -359,14 +364,7 @@ func (in *Interp) strEq(x, y value) *smt.Term {
 		return in.freshBool("opaque_str_eq")
 	}
 	xb, yb := in.strBytes(x), in.strBytes(y)
-	if len(xb) != len(yb) {
-		return c.False()
-	}
-	var cs []*smt.Term
-	for i := range xb {
-		cs = append(cs, c.Eq(xb[i], yb[i]))
-	}
-	return c.And(cs...)
+	return in.eqByteTerms(xb, yb)
 }
 
 // strLess builds x < y lexicographically.
